@@ -293,17 +293,12 @@ Section Custom.
                                   | Ok o => match go r with Ok os => Ok (o ++ os) | Err e => Err e end
                                   | Err e => Err e end
                  end.
-  (* the fields of a pg.Object, in the template's order *)
-  Definition enc_fields (f : tmpl -> tmpl -> result (list pdna)) (vs : list (str * tmpl)) : list (str * tmpl) -> result (list pdna) :=
-    fix go kvs := match kvs with
-                  | [] => Ok []
-                  | (k, t') :: r => match lookup k vs with
-                                    | None => Err E_VALUE
-                                    | Some v => match f t' v with
-                                                | Ok o => match go r with Ok os => Ok (o ++ os) | Err e => Err e end
-                                                | Err e => Err e end
-                                    end
-                  end.
+  (* the fields of a pg.Object, in the template's order (objects of one class have the same fields in schema order) *)
+  Definition keys_eqb {X Y} : list (str * X) -> list (str * Y) -> bool :=
+    fix go a b := match a, b with
+                  | [], [] => true
+                  | (k, _) :: r, (k', _) :: r' => str_eqb k k' && go r r'
+                  | _, _ => false end.
   Definition list_vs_dict (vs : list (str * tmpl)) : result (list pdna) :=
     if q_list_dict q then (match vs with [] => Err E_TYPE | _ => Err E_KEY end) else Err E_VALUE.
 
@@ -314,13 +309,13 @@ Section Custom.
     | TLeaf l => match v with TLeaf l' => if leaf_eqb l l' then Ok [] else Err E_VALUE | _ => Err E_VALUE end
     | TDict kvs =>
         match v with
-        | TDict vs => if forallb (fun kv => has_key (fst kv) vs) kvs
+        | TDict vs => if (length kvs =? length vs) && forallb (fun kv => has_key (fst kv) vs) kvs   (* keys are unique: the key sets are equal *)
                       then enc_dict (fun k x => with_key (fun t' => enc t' x) (Err E_VALUE) kvs k) vs else Err E_VALUE
         | _ => Err E_VALUE end
     | TObj c kvs =>
         match v with
-        | TObj c' vs => if (c =? c') && forallb (fun kv => has_key (fst kv) vs) kvs && forallb (fun kv => has_key (fst kv) kvs) vs
-                        then enc_fields enc vs kvs else Err E_VALUE
+        | TObj c' vs => if (c =? c') && keys_eqb kvs vs
+                        then cat2 (fun kv xv => enc (snd kv) (snd xv)) kvs vs else Err E_VALUE
         | _ => Err E_VALUE end
     | TList ts =>
         match v with
